@@ -20,7 +20,21 @@ MODE_NO = 48            # modes of the randomization method in histories (cost o
 NC, NK, NP = 19, 3, 8   # trace row layout: result block, (cnames, knames, haspos), cur_desc + seed
 OPN = ["Call", "SetPos", "SetCond:NewVals", "SetCond:NewPos", "SetCond:Refresh", "ModelInplace", "SetModel",
        "SetMean", "SetTrend", "SetNorm", "SetGen", "MutatePosInPlace", "DirectKrigeCall", "AssignPos"]
-NCOL = 7                # row = [code, haspos, base, jit, mesh, seed+1, nosave]
+NCOL = 8                # row = [code, haspos, base, jit, mesh, seed+1, nosave, chunk option]
+
+
+def chunk_size_for(code, npts):
+    """per-call chunk_size forwarded to the kriging call: 1, a value not dividing the number of points, more than all points"""
+    if code == 1:
+        return 1
+    if code == 2:
+        for c in range(npts - 1, 1, -1):
+            if npts % c:
+                return c
+        return 1
+    if code == 3:
+        return npts + 3
+    return None
 FIELD_CODES_C = {0: "field", 1: "raw_field", 2: "raw_krige"}
 FIELD_CODES_K = {0: "field", 1: "krige_var"}
 
@@ -54,7 +68,8 @@ class World:
         self.dim = int(r.integers(1, 4))
         self.unbiased = bool(r.random() < 0.6)
         self.nc = int(r.integers(3, 6))
-        self.drift = "linear" if (r.random() < 0.25 and self.nc >= self.dim + 3) else None
+        self.nc = max(self.nc, self.dim + 3) if r.random() < 0.4 else self.nc
+        self.drift = "linear" if self.nc >= self.dim + 3 and r.random() < 0.8 else None   # functional drift (universal kriging)
         self.seed0 = int(r.integers(1, 1000))      # small: seeds are unary naturals in the extracted model
         # position pool: base -> per-axis coordinates in [1, 6] (so that the np.allclose window is >= 1e-5)
         self.bases = []
@@ -182,7 +197,7 @@ def gen_rows(rng, nops, allow_jit):
     i = 0
     while len(rows) < nops:
         u = rng.random()
-        row = [0, 0, 0, 0, 0, 0, 0]
+        row = [0, 0, 0, 0, 0, 0, 0, 0]
         if cur is not None and u < 0.13:
             v = rng.random()
             if v < 0.4:
@@ -226,6 +241,8 @@ def gen_rows(rng, nops, allow_jit):
                 row[5] = 1 + int(rng.integers(1, 2000))
             if rng.random() < 0.12:
                 row[6] = 1                                   # store=[True, True, False]
+            if rng.random() < 0.4:
+                row[7] = int(rng.integers(1, 4))             # chunk_size: 1 / not dividing / > number of points
         elif u < 0.47:
             b, j, m = int(rng.integers(4)), 0, int(rng.random() < 0.3)
             if cur is not None and rng.random() < 0.3:
@@ -285,6 +302,7 @@ class HistoryRunner:
         if dirty:
             rows.append([4, 0, 0, 0, 0, 0, 0])
         rows.append([0, 0, 0, 0, 0, 0, 0] if haspos else [0, 1, 0, 0, 0, 0, 0])
+        rows = [(r + [0] * NCOL)[:NCOL] for r in rows]
         case = dict(history=dict(wseed=int(wseed), rows=rows), dim=w.dim, unbiased=w.unbiased, drift=w.drift,
                     ops=[OPN[r[0]] for r in rows], origin=origin)
         trace = None
@@ -327,9 +345,15 @@ class HistoryRunner:
                             jittered = True
                         cur_pos = (r[2], r[3], r[4])
                         kw = dict(store=[True, True, False]) if r[6] else {}
+                        if r[7]:
+                            n1 = len(w.bases[r[2] % 4][0])
+                            kw["chunk_size"] = chunk_size_for(r[7], n1 ** w.dim if r[4] else n1)
                         out = csrf(w.user_pos(r[2], r[3], r[4]), seed=sd, mesh_type=mesh_name(r[4]), **kw)
                     else:
                         kw = dict(store=[True, True, False]) if r[6] else {}
+                        if r[7] and cur_pos is not None:
+                            n1 = len(w.bases[cur_pos[0] % 4][0])
+                            kw["chunk_size"] = chunk_size_for(r[7], n1 ** w.dim if cur_pos[2] else n1)
                         out = csrf(seed=sd, **kw)
                     if r[6]:
                         last_change = "Call:store-raw_krige=False"
@@ -526,6 +550,8 @@ def honour_probe(ctx, rng, drv, reps):
                 axes = [np.sort(rng.choice(np.arange(1.0, 7.0), size=3 if dim > 1 else 5, replace=False)) for _ in range(dim)]
                 grid = np.array(np.meshgrid(*axes, indexing="ij")).reshape(dim, -1)
                 nc = int(rng.integers(3, min(6, grid.shape[1]) + 1))
+                if variant == "Universal":
+                    nc = max(nc, dim + 3)       # enough data for the linear drift
                 sel = rng.choice(grid.shape[1], size=nc, replace=False)
                 cp = grid[:, sel]
                 cv = rng.normal(size=nc) * 2
@@ -538,8 +564,6 @@ def honour_probe(ctx, rng, drv, reps):
                 elif variant == "Ordinary":
                     kr = gs.krige.Ordinary(model, cp, cv, **kw)
                 elif variant == "Universal":
-                    if nc < dim + 3:
-                        continue
                     kr = gs.krige.Universal(model, cp, cv, "linear", **kw)
                 elif variant == "ExtDrift":
                     kr = gs.krige.ExtDrift(model, cp, cv, ed_fun(*cp), **kw)
@@ -551,9 +575,11 @@ def honour_probe(ctx, rng, drv, reps):
                     at = [tuple(int(np.where(axes[d] == cp[d, i])[0][0]) for d in range(dim)) for i in range(nc)]
                 else:
                     extra = rng.uniform(0.5, 7.5, size=(dim, 6))
-                    pos = np.hstack([cp, extra])
+                    perm = rng.permutation(nc + 6)          # conditioning points spread over the target list (and over chunks)
+                    pos = np.hstack([cp, extra])[:, perm]
                     tgt = pos
-                    at = [(i,) for i in range(nc)]
+                    at = [(int(np.where(perm == i)[0][0]),) for i in range(nc)]
+                npts = int(np.prod(tgt.shape[1:]))
                 if variant == "ExtDrift":
                     call_kw["ext_drift"] = ed_fun(*tgt.reshape(dim, -1))
                 try:
@@ -564,16 +590,30 @@ def honour_probe(ctx, rng, drv, reps):
                 if not condK < 1e9:
                     ctx.count(None, hist=dict(probe="honour-data:skipped (kriging matrix numerically singular)"))
                     continue
-                for seed in [int(s) for s in rng.integers(1, 10 ** 6, size=2)]:
-                    csrf = gs.CondSRF(kr, seed=seed, mode_no=64)
-                    ctx.count(key, hist=dict(probe="honour-data", variant=variant, dim=dim, model=mcls.__name__, nugget=nug > 0,
-                                             mesh=mesh_name(mesh)))
+                chunk_codes = [int(c) for c in rng.permutation(4)]
+                for si, seed in enumerate([int(s) for s in rng.integers(1, 10 ** 6, size=3)]):
+                    ccode = chunk_codes[si]
+                    chunk = chunk_size_for(ccode, npts)
+                    ckw = dict(call_kw, chunk_size=chunk) if chunk is not None else dict(call_kw)
+                    ctx.count(key + (ccode,), hist=dict(probe="honour-data", variant=variant, dim=dim, model=mcls.__name__, nugget=nug > 0,
+                                                        mesh=mesh_name(mesh), chunk_size=["none", "1", "not dividing", "> n"][ccode]))
                     case = dict(probe="honour-data", variant=variant, dim=dim, model=repr(model), mesh=mesh_name(mesh), seed=seed,
-                                cond_pos=cp.tolist(), cond_val=cv.tolist(), kriging_matrix_cond=condK)
+                                cond_pos=cp.tolist(), cond_val=cv.tolist(), kriging_matrix_cond=condK, chunk_size=chunk, n_points=npts,
+                                pos=[np.asarray(a).tolist() for a in pos] if mesh else np.asarray(pos).tolist())
                     try:
-                        fld = csrf(pos, seed=seed, mesh_type=mesh_name(mesh), **call_kw)
-                        kvar = np.asarray(csrf.krige.krige_var)
-                        raw = np.asarray(csrf.raw_field)
+                        kr.delete_fields()
+                        csrf = gs.CondSRF(kr, seed=seed, mode_no=64)
+                        fld = np.array(csrf(pos, seed=seed, mesh_type=mesh_name(mesh), **ckw), copy=True)
+                        kvar = np.array(csrf.krige.krige_var, copy=True)
+                        raw = np.array(csrf.raw_field, copy=True)
+                        if chunk is not None:
+                            # the same call without chunking (nugget noise: same seed, same stream position)
+                            kr.delete_fields()
+                            ref = gs.CondSRF(kr, seed=seed, mode_no=64)(pos, seed=seed, mesh_type=mesh_name(mesh), **call_kw)
+                            if not np.all(np.abs(ref - fld) <= 1e-12 * (1 + np.abs(ref))):
+                                ctx.violation("probe: chunk_size", "CondSRF(..., chunk_size=%d) differs from the unchunked call by %.3g (%d target points)"
+                                              % (chunk, float(np.max(np.abs(ref - fld))), npts), case, key="chunk:%s" % variant)
+                                continue
                     except Exception as e:  # noqa
                         ctx.violation("probe: honour the data", "exception %r" % (e,), case, key="honour:exception:" + variant)
                         continue
@@ -684,7 +724,12 @@ def formula_probe(ctx, rng, drv, tie_broken, reps):
         cp = rng.uniform(1, 6, size=(dim, 4))
         cv = rng.normal(size=4)
         exact = bool(nug > 0 and rng.random() < 0.5)
-        kr = gs.krige.Krige(model, cp, cv, unbiased=bool(rng.random() < 0.5), exact=exact)
+        drift = "linear" if rng.random() < 0.4 else None
+        if drift:
+            cp = rng.uniform(1, 6, size=(dim, dim + 4))
+            cv = rng.normal(size=dim + 4)
+        unb = bool(rng.random() < 0.5)
+        kr = gs.krige.Krige(model, cp, cv, drift_functions=drift, unbiased=unb, exact=exact)
         csrf = gs.CondSRF(kr, seed=int(rng.integers(1, 10 ** 6)), mode_no=32)
         noise = []
         og = csrf.generator.get_nugget
@@ -695,21 +740,30 @@ def formula_probe(ctx, rng, drv, tie_broken, reps):
             return z
         csrf.generator.get_nugget = rec
         pos = np.hstack([cp, cp + 1e-3, rng.uniform(0, 7, size=(dim, 8))])
-        f = csrf(pos, post_process=False)
+        pos = pos[:, rng.permutation(pos.shape[1])]
+        ccode = int(rng.integers(0, 4))
+        chunk = chunk_size_for(ccode, pos.shape[1])
+        f = csrf(pos, post_process=False, **(dict(chunk_size=chunk) if chunk is not None else {}))
+        # independent, unchunked kriging of the same setup
+        k0, kv0 = gs.krige.Krige(copy.deepcopy(model), cp, cv, drift_functions=drift, unbiased=unb, exact=exact)(pos, post_process=False, store=False)
+        if not (C.close(k0, csrf.raw_krige, rtol=1e-12, scale=1 + np.abs(k0)) and C.close(kv0, csrf.krige.krige_var, rtol=1e-12, scale=1 + np.abs(kv0))):
+            ctx.violation("probe: chunk_size", "kriging field / variance inside CondSRF(chunk_size=%r) differ from the unchunked kriging call" % chunk,
+                          dict(probe="formula", model=repr(model), dim=dim, exact=exact, drift=drift, unbiased=unb, chunk_size=chunk,
+                               cond_pos=cp.tolist(), cond_val=cv.tolist(), pos=pos.tolist()), key="chunk:formula")
         zs = np.zeros(f.size) if nug == 0 else np.ravel(noise[-1])
-        ctx.count(("formula", dim, nug > 0, exact), hist=dict(probe="formula-e2e", nugget=nug, exact=exact))
+        ctx.count(("formula", dim, nug > 0, exact, drift, ccode), hist=dict(probe="formula-e2e", nugget=nug, exact=exact, drift=str(drift)))
         if drv is not None:
             m = drv.call("cond_field", nug, float(model.var), np.ravel(csrf.raw_krige), np.ravel(csrf.krige.krige_var), np.ravel(csrf.raw_field), zs)
             if not C.bit_equal(m, np.ravel(f)):
                 tie_broken.append("cond_field model differs from CondSRF(post_process=False) on its own raw_krige/krige_var/raw_field/nugget noise "
                                   "(max diff %.3g)" % float(np.nanmax(np.abs(m - np.ravel(f)))))
         # the property statement: krige + sqrt(max(kv - n, 0)/var) * raw + nugget part (numpy, independent of the model)
-        kv = np.ravel(csrf.krige.krige_var)
+        kv = np.ravel(kv0)
         vs = np.maximum(kv - nug, 0)
-        ind = np.ravel(csrf.raw_krige) + np.sqrt(vs / model.var) * np.ravel(csrf.raw_field) + (np.sqrt((kv - vs) / nug) * zs if nug > 0 else 0)
+        ind = np.ravel(k0) + np.sqrt(vs / model.var) * np.ravel(csrf.raw_field) + (np.sqrt((kv - vs) / nug) * zs if nug > 0 else 0)
         if not C.close(ind, np.ravel(f), rtol=1e-12, scale=1 + np.abs(ind)):
             ctx.violation("probe: conditioning formula", "field != kriging estimate + sqrt((krige_var - nugget)+/var) * unconditional field + nugget part",
-                          dict(probe="formula", model=repr(model), dim=dim, exact=exact), key="formula:e2e")
+                          dict(probe="formula", model=repr(model), dim=dim, exact=exact, drift=drift, chunk_size=chunk), key="formula:e2e")
         # synthetic inputs through get_scaling (edge cases: variance below nugget, zero, negative rounding noise, NaN)
         n = 12
         kvs = np.abs(rng.normal(size=n)) * (nug + 0.5)
